@@ -64,6 +64,38 @@ def expected_units(writes: List[Tuple[Optional[int], bytes]], text: bool) -> Opt
     return out
 
 
+def show_text(t: str) -> str:
+    return ascii(t)
+
+
+def text_failure(case: Dict[str, Any], i: int, x: str, y: str, writes: List[Tuple[Optional[int], bytes]],
+                 chunks: List[Tuple[Optional[int], Any]], dl: List[Any], wr: List[Any]) -> Failure:
+    cfg = case['chans'][i]
+    enc, errors = cfg['enc'], cfg.get('errors', 'strict')
+    k = next((j for j in range(min(len(dl), len(wr))) if dl[j] != wr[j]), min(len(dl), len(wr)))
+    wtxt = [(L.show_dt(dt), data.decode('utf-8')) for dt, data in writes]
+    got: List[Tuple[str, str]] = []          # callbacks, adjacent ones of one datatype merged, empty ones dropped
+    for dt, t in chunks:
+        if t and got and got[-1][0] == L.show_dt(dt):
+            got[-1] = (got[-1][0], got[-1][1] + t)
+        elif t:
+            got.append((L.show_dt(dt), t))
+    shown_w = ', '.join(f'write({show_text(t)}' + (f', datatype={dt})' if dt != '-' else ')') for dt, t in wtxt)
+    shown_g = ', '.join(f'data_received({show_text(t)}' + (f', {dt})' if dt != '-' else ', None)') for dt, t in got)
+    extra = ''
+    if k < len(dl) and dl[k][0] == '\ufeff' and (k >= len(wr) or wr[k][0] != '\ufeff'):
+        extra = ' — a byte order mark (U+FEFF) the sender never wrote: the mark was put on the wire again after the first write'
+    return Failure(f'text-not-as-written:{enc}',
+                   f'channel {i} direction {x}->{y}, both ends text channels with encoding={enc!r} errors={errors!r}, '
+                   f'send window {cfg["wb" if x == "a" else "wa"]} max packet {cfg["pb" if x == "a" else "pa"]}: '
+                   f'the sender called {shown_w}; the receiver got (callbacks of one datatype joined) {shown_g}: the text delivered is not a prefix of '
+                   f'the text written (first difference at character {k}: '
+                   f'got {show_text(dl[k][0]) if k < len(dl) else "nothing"}, '
+                   f'written {show_text(wr[k][0]) if k < len(wr) else "nothing"}){extra}',
+                   {'case': case, 'encoding': enc, 'errors': errors, 'direction': f'{x}->{y}',
+                    'writes': [[dt, t] for dt, t in wtxt], 'received': [[dt, t] for dt, t in got]})
+
+
 def check_c07(case: Dict[str, Any], res: Dict[str, Any]) -> List[Failure]:
     """bytes delivered == bytes written per channel and datatype (order across datatypes included), nothing
     duplicated or reordered ever, EOF iff signalled and last"""
@@ -84,12 +116,17 @@ def check_c07(case: Dict[str, Any], res: Dict[str, Any]) -> List[Failure]:
                              f'data in flight is lost', {'case': case}))
     for i in range(len(case['chans'])):
         for x, y in (('a', 'b'), ('b', 'a')):
-            text = bool(case['chans'][i].get('decA' if y == 'a' else 'decB'))
+            enc = case['chans'][i].get('enc')
+            text = bool(enc or case['chans'][i].get('decA' if y == 'a' else 'decB'))
             wr = expected_units(writes.get((x, i), []), text)
             chunks, kinds = delivered(res['events'][y][i])
             dl = [(u, dt) for dt, data in chunks for u in data]
             where = f'channel {i} direction {x}->{y}' + (' (text)' if text else '')
             if wr is None:
+                continue
+            if enc and dl != wr[:len(dl)]:
+                # a text channel in a named encoding: say which encoding, what was written, what arrived
+                fails.append(text_failure(case, i, x, y, writes.get((x, i), []), chunks, dl, wr))
                 continue
             if dl != wr[:len(dl)]:
                 k = next((j for j in range(min(len(dl), len(wr))) if dl[j] != wr[j]), min(len(dl), len(wr)))
